@@ -272,3 +272,47 @@ def run_float_path(P, rep, rule="R-MATH.float"):
                 rep.viol(rule, site, P.where(root), p_)
         else:
             rep.ok(rule, site, P.where(root), "float path = one f64 `%s`" % op)
+
+
+# ---------------------------------------------------------------------------------------
+# R-MATH.zerotest: "Can't divide by zero" is decided on the divisor
+
+def run_zero_test_operand(P, rep, rule="R-MATH.zerotest"):
+    """divided_by / modulo: every comparison with the constant zero in the filter's body tests a number that derives from
+    the filter's *argument* (self.args, evaluated against the runtime), never from the piped input (parameter 2): a guard on the
+    dividend rejects `0 | modulo: 2.5` and lets `5 | modulo: 0.0` through."""
+    from origins import backward_slice
+    from mirutil import op_local
+    for nm in ("DividedByFilter", "ModuloFilter"):
+        key = "<liquid_lib::stdlib::filters::math::%s as liquid_core::parser::filter::Filter>::evaluate" % nm
+        fns = P.by_key(key)
+        if len(fns) != 1:
+            rep.anchor_missing(rule, key)
+            continue
+        fn = fns[0]
+        n = 0
+        bad = None
+        for b in fn.blocks:
+            for st in b["s"]:
+                if st[0] != "a" or st[2]["k"] != "bin" or st[2]["op"] not in ("Eq", "Ne"):
+                    continue
+                a, c = st[2]["a"], st[2]["b"]
+                zero = lambda o: o[0] == "k" and isinstance(o[1], dict) and (o[1].get("val") == 0 or str(o[1].get("fval", "")).lstrip("+-") in ("0f64", "0.0f64", "0", "0.0"))  # noqa: E731
+                other = c if zero(a) else a if zero(c) else None
+                if other is None:
+                    continue
+                ol = op_local(other)
+                if not ol or P.local_ty(fn, ol[0]) not in ("i64", "f64"):
+                    continue
+                n += 1
+                locs, _ = backward_slice(fn, ol[0])
+                if 2 in locs:
+                    bad = bad or (st[3] if len(st) > 3 else None)
+        site = nm.replace("Filter", "") + " zero test"
+        if bad is not None:
+            rep.viol(rule, site, P.where(fn, bad), "the zero test of the division guard reads the piped input, not the argument: a zero dividend is rejected "
+                     "and a zero (float) divisor is let through")
+        elif n < 2:
+            rep.viol(rule, site, P.where(fn), "expected an integer and a float zero test on the divisor, found %d: re-derive" % n)
+        else:
+            rep.ok(rule, site, P.where(fn), "%d zero tests, all on values derived from the argument" % n)
